@@ -30,10 +30,12 @@ def check(rr) -> list:
     live = C.check_liveness(rr)
     for v in live:
         if v['cls'] == 'HANG':
+            site = v['sig'].split(' @ ')[1].split(' [')[0]
+            kind = 'sever' if first.get('sever') else 'crash'
             out.append({'cls': 'CRASH_HANG',
-                        'sig': v['sig'].replace('HANG @', 'CRASH_HANG @')
-                        + f' <{tag}>',
-                        'msg': f'after crash {first}: ' + v['msg']})
+                        'sig': f'CRASH_HANG @ {site} '
+                               f'[{first["kind"]} {kind}]',
+                        'msg': f'after fault {tag} {first}: ' + v['msg']})
     # nothing is returned as a result unless it is the complete output
     refs = {(ci, i): ref for ci, i, name, prog, ref in C.refs_of(rr)}
     byname = {(ci, name): ref for ci, i, name, prog, ref in C.refs_of(rr)
